@@ -5,4 +5,4 @@ CONSTANTS
   MaxLen = @MAXLEN@
   StrCap = @STRCAP@
   Prefix <- PrefixDef
-INVARIANTS TypeOK PdaIsGrammar StrictWithinStructural DepthIsError
+INVARIANTS TypeOK PdaIsGrammar StrictWithinStructural DepthIsError PrefixFree
